@@ -224,11 +224,26 @@ def prop_track(case, ctx):
     pol = AlphaVectorPolicy(pomdp, np.zeros((1, len(sl))))
     ag = pol.initial_agentstate()
     rb = dict(ref.p0)
+    # the caller may hand in its own initial agent state (run_on(initial_agentstate=...)): the same belief written over
+    # its support only, or in another state order, must be tracked to the same posteriors
+    from msdm.core.pomdp.policy import Belief
+    form = (len(case["seq"]) + sum(case["belief"])) % 3
+    if form:
+        pairs = [(s, p) for s, p in zip(ag.states, ag.probs) if p > 0 or form == 2]
+        if form == 2:
+            pairs = pairs[::-1]
+        ag = Belief(tuple(s for s, _ in pairs), tuple(p for _, p in pairs))
+        ctx.event("initial_agentstate_support_only" if form == 1 else "initial_agentstate_reversed")
+
+    def whole(ag_, rb_, step):
+        got = dict(zip(ag_.states, ag_.probs))
+        for i in set(rb_) | {view.sidx[s] for s in got}:
+            g = float(got.get(view.S[i], 0.0))
+            ctx.check(abs(g - float(rb_.get(i, F(0)))) <= 1e-9, "C07.track.agentstate_is_posterior",
+                      lambda: f"step {step}: {ag_} expected {dict((k, float(v)) for k, v in rb_.items())}")
     steps = 0
     for a, o in case["seq"]:
-        for s, p in zip(ag.states, ag.probs):
-            ctx.check(abs(p - float(rb.get(view.sidx[s], F(0)))) <= 1e-9, "C07.track.agentstate_is_posterior",
-                      lambda: f"step {steps}: {ag} expected {rb}")
+        whole(ag, rb, steps)
         rb = ref.posterior(rb, a, o)
         ag = ctx.call("C07.track.next_agentstate_raises", pol.next_agentstate, ag, view.A[a], view.OL[o])
         if not rb:
@@ -236,8 +251,7 @@ def prop_track(case, ctx):
             break
         steps += 1
     else:
-        for s, p in zip(ag.states, ag.probs):
-            ctx.check(abs(p - float(rb.get(view.sidx[s], F(0)))) <= 1e-9, "C07.track.agentstate_is_posterior")
+        whole(ag, rb, steps)
     ctx.nontrivial(steps >= 2 and len(rb) >= 2)
 
 
